@@ -512,6 +512,11 @@ class Generator(AbstractODSGenerator):
         if new_lines:
             summary_sheet.append_rows(new_lines)
 
+        # Transactions are identified by their spreadsheet row, which is unique only within one asset: start from an empty
+        # transaction-to-row map for each asset, otherwise a transaction hidden by the time filters would be hyperlinked to
+        # the row of a transaction of a previous asset that happens to have the same spreadsheet row
+        self.__in_out_sheet_transaction_2_row = {}
+
         row_index: int = 0
         row_index = self.__generate_in_table(transaction_sheet, computed_data, row_index)
         row_index = self.__generate_out_table(transaction_sheet, computed_data, row_index + 2)
